@@ -47,6 +47,10 @@ pub struct Touch {
     pub ty: Ty,
     pub args: IndexMap<String, CV>,
     pub loc: Pos,
+    /// number of field nodes merged under this response key (CollectFields with the visited-fragment set)
+    pub occurrences: usize,
+    /// the same count when every spread of a fragment is followed (no visited set)
+    pub occurrences_all_spreads: usize,
 }
 
 #[derive(Clone, Debug, Default)]
@@ -73,6 +77,10 @@ pub struct Exec<'a> {
     pub out: RefOut,
     /// quirks of OPEN known findings (switches of the oracle)
     pub quirks: Quirks,
+    /// set while completing a field whose injected fault is "value invalid for its type"
+    pub invalid_leaves: bool,
+    /// per response key of the selection set being executed: occurrences when every spread is followed
+    pub pending_occ_all: IndexMap<String, usize>,
 }
 
 #[derive(Clone, Copy, Debug, Default, PartialEq)]
@@ -159,6 +167,38 @@ impl<'a> Exec<'a> {
             }
         }
     }
+    fn count_all(&self, object_type: &str, sel: &'a SelSet, out: &mut IndexMap<String, usize>, depth: usize) {
+        if depth > 32 {
+            return;
+        }
+        for it in &sel.items {
+            match it {
+                Selection::Field(f) => {
+                    if included(&f.directives, &self.vars) {
+                        *out.entry(f.key().to_string()).or_insert(0) += 1;
+                    }
+                }
+                Selection::Spread(sp) => {
+                    if !included(&sp.directives, &self.vars) {
+                        continue;
+                    }
+                    if let Some(fr) = self.doc.frag(&sp.name.s) {
+                        if self.applies(object_type, object_type, &fr.cond.s) {
+                            self.count_all(object_type, &fr.sel, out, depth + 1);
+                        }
+                    }
+                }
+                Selection::Inline(inl) => {
+                    if !included(&inl.directives, &self.vars) {
+                        continue;
+                    }
+                    if inl.cond.as_ref().map_or(true, |c| self.applies(object_type, object_type, &c.s)) {
+                        self.count_all(object_type, &inl.sel, out, depth + 1);
+                    }
+                }
+            }
+        }
+    }
     fn applies(&self, object_type: &str, _static_type: &str, cond: &str) -> bool {
         if self.quirks.union_condition_in_object_dropped && self.sch.kind(cond) == Some(Kind::Union) && object_type != cond {
             return false;
@@ -177,9 +217,15 @@ impl<'a> Exec<'a> {
         for s in sels {
             self.collect(object_type, object_type, s, &mut visited, &mut grouped);
         }
+        // occurrences without the visited set (quirk counting for C04)
+        let mut all: IndexMap<String, usize> = IndexMap::new();
+        for s in sels {
+            self.count_all(object_type, s, &mut all, 0);
+        }
         let mut map = serde_json::Map::new();
         let mut failed = false;
         for (key, fields) in grouped {
+            self.pending_occ_all = all.clone();
             let mut p = path.clone();
             p.push(Seg::Key(key.clone()));
             match self.exec_field(object_type, node, &fields, &p) {
@@ -220,13 +266,34 @@ impl<'a> Exec<'a> {
                 return self.null_or_propagate(&fd.ty, path);
             }
         };
-        self.out.touches.push(Touch { path: path.clone(), node, parent_type: object_type.to_string(), field: f.name.s.clone(), ty: fd.ty.clone(), args, loc });
-        if let Some(fault) = self.world.fault(node, &f.name.s) {
-            self.err(path, loc, &format!("fault {:?}", fault));
-            return self.null_or_propagate(&fd.ty, path);
+        let occ_all = self.pending_occ_all.get(f.key()).copied().unwrap_or(fields.len());
+        self.out.touches.push(Touch {
+            path: path.clone(),
+            node,
+            parent_type: object_type.to_string(),
+            field: f.name.s.clone(),
+            ty: fd.ty.clone(),
+            args,
+            loc,
+            occurrences: fields.len(),
+            occurrences_all_spreads: occ_all,
+        });
+        let mut v = self.world.value(node, &f.name.s).cloned().unwrap_or(WVal::Null);
+        match self.world.fault(node, &f.name.s) {
+            // a value that is invalid for its (leaf) type fails where that leaf is completed: at the field for a
+            // plain leaf, at the item for list items; nulls stay nulls
+            Some(Fault::InvalidValue) => self.invalid_leaves = true,
+            // the resolver yields nothing: null, which is a field error only at a non-null position
+            Some(Fault::NothingForNonNull) => v = WVal::Null,
+            Some(fault) => {
+                self.err(path, loc, &format!("fault {:?}", fault));
+                return self.null_or_propagate(&fd.ty, path);
+            }
+            None => {}
         }
-        let v = self.world.value(node, &f.name.s).cloned().unwrap_or(WVal::Null);
-        self.complete(&fd.ty, fields, &v, path, loc)
+        let r = self.complete(&fd.ty, fields, &v, path, loc);
+        self.invalid_leaves = false;
+        r
     }
 
     fn null_or_propagate(&mut self, ty: &Ty, _path: &Path) -> Result<J, Propagate> {
@@ -240,6 +307,14 @@ impl<'a> Exec<'a> {
     /// CompleteValue. `Err(Propagate)` = this position must become null because of an error that has already been
     /// recorded; a nullable type absorbs it, a non-null type passes it on.
     fn complete(&mut self, ty: &Ty, fields: &[&'a Field], v: &WVal, path: &Path, loc: Pos) -> Result<J, Propagate> {
+        if self.quirks.non_finite_float_is_null {
+            if let WVal::Float(f) = v {
+                if !f.is_finite() && !ty.is_list() {
+                    // quirk C01-F3: null, silently, even at a non-null position
+                    return Ok(J::Null);
+                }
+            }
+        }
         match ty {
             Ty::NonNull(inner) => match self.complete_nullable(inner, fields, v, path, loc) {
                 Ok(J::Null) => {
@@ -288,6 +363,10 @@ impl<'a> Exec<'a> {
             },
             Ty::Named(n) => {
                 if self.sch.is_leaf(n) {
+                    if self.invalid_leaves {
+                        self.err(path, loc, "injected: value invalid for its type");
+                        return Err(Propagate);
+                    }
                     match self.serialize_leaf(n, v) {
                         Some(j) => Ok(j),
                         None => {
@@ -394,7 +473,7 @@ pub fn execute(sch: &Sch, doc: &Doc, op_name: Option<&str>, provided: &IndexMap<
             _ => return Err(ReqErr::Unsupported("no subscription root".into())),
         },
     };
-    let mut ex = Exec { sch, doc, world, vars, out: RefOut::default(), quirks };
+    let mut ex = Exec { sch, doc, world, vars, out: RefOut::default(), quirks, invalid_leaves: false, pending_occ_all: IndexMap::new() };
     let r = ex.exec_selset(&[&op.sel], &root_ty, root_node, &vec![]);
     let mut out = ex.out;
     out.data = match r {
@@ -402,5 +481,80 @@ pub fn execute(sch: &Sch, doc: &Doc, op_name: Option<&str>, provided: &IndexMap<
         Err(Propagate) => Some(J::Null),
     };
     assign_nulled(&mut out);
+    Ok(out)
+}
+
+/// Quirk model of known finding C04-F1: "every occurrence of a response key is executed separately (every spread
+/// followed, no merging before execution)". Returns the number of resolver starts per response path that this
+/// behaviour produces on a fault-free world.
+pub fn starts_per_occurrence(sch: &Sch, doc: &Doc, op_name: Option<&str>, provided: &IndexMap<String, CV>, world: &World) -> Result<std::collections::HashMap<String, usize>, ReqErr> {
+    let op = select_operation(doc, op_name)?;
+    let vars = coerce_variables(sch, op, provided).map_err(ReqErr::Variables)?;
+    let (root_ty, root_node) = match op.kind {
+        OpKind::Query => (sch.query.clone(), world.query_root),
+        OpKind::Mutation => (sch.mutation.clone().unwrap_or_default(), world.mutation_root.unwrap_or(0)),
+        OpKind::Subscription => (sch.subscription.clone().unwrap_or_default(), world.subscription_root.unwrap_or(0)),
+    };
+    let ex = Exec { sch, doc, world, vars, out: RefOut::default(), quirks: Quirks::default(), invalid_leaves: false, pending_occ_all: IndexMap::new() };
+    let mut out = std::collections::HashMap::new();
+    fn values(ex: &Exec, ty: &Ty, v: &WVal, path: &str, f: &Field, out: &mut std::collections::HashMap<String, usize>, depth: usize) {
+        match v {
+            WVal::Null => {}
+            WVal::List(items) => {
+                let inner = match ty.nullable() {
+                    Ty::List(i) => (**i).clone(),
+                    t => t.clone(),
+                };
+                for (i, it) in items.iter().enumerate() {
+                    values(ex, &inner, it, &format!("{}.{}", path, i), f, out, depth);
+                }
+            }
+            WVal::Ref(n) => {
+                let rt = ex.world.nodes[*n].ty.clone();
+                walk(ex, &rt, *n, &f.sel, path, out, depth + 1);
+            }
+            _ => {}
+        }
+    }
+    fn walk(ex: &Exec, object_type: &str, node: usize, sel: &SelSet, path: &str, out: &mut std::collections::HashMap<String, usize>, depth: usize) {
+        if depth > 40 {
+            return;
+        }
+        for it in &sel.items {
+            match it {
+                Selection::Field(f) => {
+                    if !included(&f.directives, &ex.vars) || f.name.s == "__typename" {
+                        continue;
+                    }
+                    let p = if path.is_empty() { f.key().to_string() } else { format!("{}.{}", path, f.key()) };
+                    *out.entry(p.clone()).or_insert(0) += 1;
+                    if let Some(fd) = ex.sch.field(object_type, &f.name.s) {
+                        if let Some(v) = ex.world.value(node, &f.name.s) {
+                            values(ex, &fd.ty, v, &p, f, out, depth);
+                        }
+                    }
+                }
+                Selection::Spread(sp) => {
+                    if !included(&sp.directives, &ex.vars) {
+                        continue;
+                    }
+                    if let Some(fr) = ex.doc.frag(&sp.name.s) {
+                        if ex.sch.fragment_applies(object_type, &fr.cond.s) {
+                            walk(ex, object_type, node, &fr.sel, path, out, depth + 1);
+                        }
+                    }
+                }
+                Selection::Inline(inl) => {
+                    if !included(&inl.directives, &ex.vars) {
+                        continue;
+                    }
+                    if inl.cond.as_ref().map_or(true, |c| ex.sch.fragment_applies(object_type, &c.s)) {
+                        walk(ex, object_type, node, &inl.sel, path, out, depth + 1);
+                    }
+                }
+            }
+        }
+    }
+    walk(&ex, &root_ty, root_node, &op.sel, "", &mut out, 0);
     Ok(out)
 }
